@@ -494,7 +494,8 @@ def feCheck (orc : Oracle) : M Bool := do
 /-- `libvm_execute_build_in` -/
 def buildIn (id : Nat) (orc : Oracle) : M Unit := do
   let sp ← getSp
-  let top ← rdAddr sp
+  -- every build-in but `read` (12, no operand) reads its operand address from `stack[sp]`
+  let top ← (if id == 12 then pure 0 else rdAddr sp : M Nat)
   let finish (a : Nat) : M Unit := do
     if (← feCheck orc) then pure () else wrSlot (← getSp) (.addr a)
   let math1 (f : Float32 → Float32) : M Unit := do
@@ -527,6 +528,7 @@ def buildIn (id : Nat) (orc : Oracle) : M Unit := do
   | 12 => do
     let a ← alloc (.int orc.readInt)
     setSp (sp + 1)
+    checkStack          -- since the `fix:` commit 034394a (the pinned code stored without a check: `buildInReadPinned`)
     finish a
   | 13 => do let x ← getInt top; emit (fmtInt x.toInt ++ [13, 10]); finish (← alloc (.int x))
   | 14 => do let x ← getLong top; emit (fmtInt x.toInt ++ [13, 10]); finish (← alloc (.long x))
@@ -568,6 +570,14 @@ def buildIn (id : Nat) (orc : Oracle) : M Unit := do
     finish (← alloc (.cptr (if s == 0 then 0 else 1)))
   | 30 => do let _ ← getCPtr top; finish (← alloc (.cptr 1))
   | _ => crash "unknown build-in"
+
+/-- the `read` build-in (LIB_MATH_READ) as in the pinned tree: `sp++` and the common store after the switch, with NO
+`vm_check_stack` in between (kept for the record; repaired by the `fix:` commit 034394a) -/
+def buildInReadPinned (orc : Oracle) : M Unit := do
+  let sp ← getSp
+  let a ← alloc (.int orc.readInt)
+  setSp (sp + 1)
+  if (← feCheck orc) then pure () else wrSlot (← getSp) (.addr a)
 
 
 /-- element-wise `a op b` over two element lists, allocating in element order -/
